@@ -644,15 +644,17 @@ class TFLiteSemantic:
         valid = (new_axis == 0) or (shrink_axis == 0)
         return valid, f"Op has new_axis_mask={new_axis} and shrink_axis_mask={shrink_axis}"
 
-    def _get_slice_offsets(input_shape, offset_tens, offset_mask, is_begin=True):
+    def _get_slice_offsets(input_shape, offset_tens, offset_mask, new_axis_mask, is_begin=True):
         # For strided slice operator: get start or end offsets
-        # input_shape: List[int], offset_tens: Tensor, offset_mask: int, is_begin: bool = True
+        # input_shape: List[int], offset_tens: Tensor, offset_mask: int, new_axis_mask: int, is_begin: bool = True
         offsets = len(input_shape) * [0] if is_begin else input_shape[:]
-        for idx in range(len(input_shape)):
+        # offset_tens and the masks have one entry per output dimension: the entries of new axes have no input dimension
+        indices = [i for i in range(len(offset_tens.values)) if (new_axis_mask & (1 << i)) == 0]
+        for idx, i in zip(range(len(input_shape)), indices):
             # If the i:th bit in the mask is not set then the value in offset_tens[i] should be used, otherwise it
             # should be ignored
-            if (offset_mask & (1 << idx)) == 0:
-                offsets[idx] = offset_tens.values[idx]
+            if (offset_mask & (1 << i)) == 0:
+                offsets[idx] = offset_tens.values[i]
                 if offsets[idx] < 0:
                     # Convert negative indexing to positive ones
                     offsets[idx] += input_shape[idx]
@@ -664,8 +666,9 @@ class TFLiteSemantic:
         ifm, begin, end, _ = op.inputs
         shrink_axis_mask = op.attrs["shrink_axis_mask"]
         # Calculate offset begin/end
-        offset_begin = TFLiteSemantic._get_slice_offsets(ifm.shape, begin, op.attrs["begin_mask"], is_begin=True)
-        offset_end = TFLiteSemantic._get_slice_offsets(ifm.shape, end, op.attrs["end_mask"], is_begin=False)
+        new_axis_mask = op.attrs["new_axis_mask"]
+        offset_begin = TFLiteSemantic._get_slice_offsets(ifm.shape, begin, op.attrs["begin_mask"], new_axis_mask, True)
+        offset_end = TFLiteSemantic._get_slice_offsets(ifm.shape, end, op.attrs["end_mask"], new_axis_mask, False)
         # Check "end - begin" doesn't result in any zero or negative elements
         valid = True
         # if a shrink mask bit is set then the end position provided by the operation should be ignored, and instead a
